@@ -368,6 +368,46 @@ def snippet_directives(rng, prog, fired, j):
     return [mk_directive(rng, prog, fired, form=rng.choice(["next-line", "this-line", "range"])) for _ in range(rng.choice([1, 2]))]
 
 
+def mk_stack(rng, prog, dg):
+    """2-4 directives in force at once on ONE statement: next-line comments, trailing falco-ignore comments, start..end pairs
+    that begin at it - same kind or mixed - with rule lists that are disjoint, overlapping, empty (= all) or repeated, so
+    that a diagnostic of the statement is named only by an earlier / only by a later / by several / by none of them"""
+    simples = [n for n in prog.nodes() if n.kind == "simple" and not n.text.startswith(("break", "fallthrough"))]
+    with_diags = [n for n in simples if dg.get(n.id)]
+    n = rng.choice(with_diags or simples)
+    own = [r for r in dg.get(n.id, []) if r != "-"]
+    pool = list(dict.fromkeys(own + ["acl/syntax", "function/arguments", "operator/assignment"]))
+    owner, lst = next((o, l) for o, l in prog.lists() if n in l)
+    i = lst.index(n)
+    out = []
+    kinds = rng.choice([["next-line"], ["this-line"], ["range"], ["next-line", "this-line", "range"], ["next-line", "range"]])
+    for t in range(rng.randint(2, 4)):
+        kind = rng.choice(kinds)
+        pick = rng.random()
+        rules = [] if pick < 0.2 else rng.sample(pool, min(len(pool), rng.choice([1, 1, 2])))
+        if rng.random() < 0.15 and rules:
+            rules = rules + [rules[0]]
+        mk = "/*" if kind == "this-line" else rng.choice(G.MARKERS)
+        if kind == "next-line":
+            out.append({"form": "next-line", "rules": rules, "marker": mk, "node": n,
+                        "placements": [{"node": n, "where": "lead", "text": G.comment(mk, "next-line", rules), "front": rng.random() < 0.5}]})
+        elif kind == "this-line":
+            out.append({"form": "this-line", "rules": rules, "marker": mk, "node": n,
+                        "placements": [{"node": n, "where": "trail", "text": G.comment(mk, "this-line", rules)}]})
+        else:
+            cands = [j for j in range(i + 1, len(lst) + 1) if j < len(lst) or (owner is not None and owner.kind == "block")]
+            if not cands:
+                continue
+            j = rng.choice(cands)
+            pls = [{"node": n, "where": "lead", "text": G.comment(mk, "start", rules), "front": rng.random() < 0.5}]
+            if j < len(lst):
+                pls.append({"node": lst[j], "where": "lead", "text": G.comment(mk, "end", rules)})
+            else:
+                pls.append({"node": owner, "where": "infix", "text": G.comment(mk, "end", rules)})
+            out.append({"form": "range", "rules": rules, "marker": mk, "owner": owner, "lst": lst, "i": i, "j": j, "placements": pls})
+    return out
+
+
 def trailing_ok(node):
     """a line comment must be the last thing on the line"""
     for lst in [node.trail] + list(node.extra.values()):
@@ -418,14 +458,20 @@ def overlap_facts(prog, ds):
     rs = [d for d in ds if d["form"] in ("range", "open")]
     if len(rs) < 2:
         return None
-    a, b = rs[0], rs[1]
     order = prog.comment_order()
-    # a start without end runs to the end of the file
-    (sa, ea), (sb, eb) = [(tuple(order[id(p["obj"])] for p in d["placements"]) + (10 ** 9,))[:2] for d in (a, b)]
-    if ea < sb or eb < sa:
-        return None                      # one pair is closed before the other opens
-    if a["rules"] and b["rules"] and not (set(a["rules"]) & set(b["rules"])):
-        return None                      # disjoint rule lists: the pairs do not interfere
+    hit = False
+    for x in range(len(rs)):
+        for y in range(x + 1, len(rs)):
+            a, b = rs[x], rs[y]
+            # a start without end runs to the end of the file
+            (sa, ea), (sb, eb) = [(tuple(order[id(p["obj"])] for p in d["placements"]) + (10 ** 9,))[:2] for d in (a, b)]
+            if ea < sb or eb < sa:
+                continue                 # one pair is closed before the other opens
+            if a["rules"] and b["rules"] and not (set(a["rules"]) & set(b["rules"])):
+                continue                 # disjoint rule lists: the pairs do not interfere
+            hit = True
+    if not hit:
+        return None
     return dict(KNOWN_OVERLAP)
 
 
@@ -656,14 +702,20 @@ def run(ctx):
             flush()
 
     per_prog = 40
+    stack_n = 0
     for label, p in usable:
         if not label.startswith("gen-"):
             continue
         loc, dg, fired = base[id(p)]
         add_case(label, p, [])
         for k in range(per_prog):
-            nd = 1 if rng.random() < 0.55 else 2
-            add_case(label, p, [mk_directive(rng, p, fired) for _ in range(nd)], crlf=rng.random() < 0.08)
+            if rng.random() < 0.2:
+                ds = mk_stack(rng, p, dg)
+                stack_n += 1
+            else:
+                nd = rng.choice([1, 1, 1, 2, 2, 3])
+                ds = [mk_directive(rng, p, fired) for _ in range(nd)]
+            add_case(label, p, ds, crlf=rng.random() < 0.08)
 
     # exhaustive: every shape x every single-directive placement (marker rotated, with and without a rule list)
     exhaustive_n = slot_n = pair_n = 0
@@ -782,7 +834,7 @@ def run(ctx):
                             "x every next-line slot, this-line slot and start/end pair, with and without a rule list" % max_shape,
         "exhaustive_single_directive_cases": exhaustive_n,
         "exhaustive_placeholder_cases": slot_n, "exhaustive_placeholder_bound": "shapes with <= %d statements x every placeholder of docs/parser.md x {next-line, trailing keyword} x {bare, one rule}" % max_slot_shape,
-        "nested_rule_listed_pairs": pair_n, "managed_snippet_cases": snippet_n,
+        "stacks_of_2_to_4_directives_on_one_statement": stack_n, "nested_rule_listed_pairs": pair_n, "managed_snippet_cases": snippet_n,
         "where_the_parser_attached_the_placeholder_comments": dict(sorted(landed.items())),
         "model_impl_agree": stat["agree"], "oracle_checked": stat["oracle_checked"], "oracle_agree": stat["oracle_agree"],
         "overlapping_range_pairs_sharing_rules": stat.get("overlap_cases", 0),
